@@ -70,19 +70,28 @@ theorem NoFault.noRestart {as : List Action} (h : NoFault as) : NoRestart as := 
   subst heq
   simp [Action.isFault] at this
 
-/-- Run a block of actions `f d` for every `d` of a list, maintaining an invariant indexed by the
-list of nodes still to be served. -/
-theorem run_foreach {N : Nat} (I : List Nat → State → Prop) (f : Nat → List Action)
-    (hstep : ∀ d rest s, I (d :: rest) s → ∃ s', run N s (f d) = some s' ∧ I rest s') :
-    ∀ (l : List Nat) (s : State), I l s → ∃ s', run N s (l.flatMap f) = some s' ∧ I [] s' := by
+/-- Run a block of actions for every `d` of a list, maintaining an invariant indexed by the list of
+nodes still to be served. -/
+theorem run_foreach {N : Nat} (I : List Nat → State → Prop)
+    (hstep : ∀ d rest s, I (d :: rest) s → ∃ as s', NoFault as ∧ run N s as = some s' ∧ I rest s') :
+    ∀ (l : List Nat) (s : State), I l s → ∃ as s', NoFault as ∧ run N s as = some s' ∧ I [] s' := by
   intro l
   induction l with
-  | nil => intro s h; exact ⟨s, rfl, h⟩
+  | nil => intro s h; exact ⟨[], s, NoFault.nil, rfl, h⟩
   | cons d rest ih =>
     intro s h
-    obtain ⟨s1, hr1, hI1⟩ := hstep d rest s h
-    obtain ⟨s2, hr2, hI2⟩ := ih s1 hI1
-    exact ⟨s2, by rw [List.flatMap_cons]; exact run_append_some hr1 hr2, hI2⟩
+    obtain ⟨as1, s1, hn1, hr1, hI1⟩ := hstep d rest s h
+    obtain ⟨as2, s2, hn2, hr2, hI2⟩ := ih s1 hI1
+    exact ⟨as1 ++ as2, s2, hn1.append hn2, run_append_some hr1 hr2, hI2⟩
+
+theorem mem_erase_snoc {m x : Msg} {l : List Msg} (hx : x ∈ l) : x ∈ (l ++ [m]).erase m := by
+  by_cases hm : m ∈ l
+  · rw [List.erase_append_left _ hm]
+    by_cases hxm : x = m
+    · subst hxm; simp
+    · exact List.mem_append_left _ ((List.mem_erase_of_ne hxm).mpr hx)
+  · rw [List.erase_append_right _ hm]
+    exact List.mem_append_left _ hx
 
 /-! ## the other voters -/
 
@@ -139,7 +148,7 @@ theorem step_recvAppend_accept {N : Nat} {s : State} {n t ldr prev pt : Nat} {es
       s'.msgs = s.msgs.erase (.append t ldr n prev pt es c) ++ [Msg.ack t n ldr (prev + es.length)] ∧
       s'.g.acked t n = max (s.g.acked t n) (prev + es.length) := by
   simp only [step]
-  rw [if_pos ⟨rfl, hm⟩, if_neg ht, if_pos ⟨by simpa using hp, by simpa using hpt⟩]
+  rw [if_pos ⟨trivial, hm⟩, if_neg ht, if_pos ⟨by simpa using hp, by simpa using hpt⟩]
   refine ⟨_, rfl, fun x hx => by simp [setNode, hx], ?_, ?_, ?_, ?_, ?_, ?_, ?_⟩
   · simp
   · simp [adoptTerm_term ht]
@@ -158,7 +167,7 @@ theorem step_recvAppend_reject {N : Nat} {s : State} {n t ldr prev pt : Nat} {es
       s'.nodes n = adoptTerm (s.nodes n) t ∧
       s'.msgs = s.msgs.erase (.append t ldr n prev pt es c) ∧ s'.g = s.g := by
   simp only [step]
-  rw [if_pos ⟨rfl, hm⟩, if_neg ht, if_neg (by simpa using hrej)]
+  rw [if_pos ⟨trivial, hm⟩, if_neg ht, if_neg (by simpa using hrej)]
   exact ⟨_, rfl, fun x hx => by simp [setNode, hx], by simp, rfl, rfl⟩
 
 /-- A stale `append_entries` (older term) is dropped. -/
@@ -167,7 +176,7 @@ theorem step_recvAppend_stale {N : Nat} {s : State} {n t ldr prev pt : Nat} {es 
     step N s (.recvAppend n (.append t ldr n prev pt es c)) =
       some { s with msgs := s.msgs.erase (.append t ldr n prev pt es c) } := by
   simp only [step]
-  rw [if_pos ⟨rfl, hm⟩, if_pos ht]
+  rw [if_pos ⟨trivial, hm⟩, if_pos ht]
 
 /-- The leader of the acknowledgement's term records it. -/
 theorem step_recvAck {N : Nat} {s : State} {n t flw idx : Nat} (hn : n < N)
@@ -179,11 +188,11 @@ theorem step_recvAck {N : Nat} {s : State} {n t flw idx : Nat} (hn : n < N)
       s'.msgs = s.msgs.erase (.ack t flw n idx) ∧ s'.g = s.g := by
   by_cases hlt : (s.nodes n).matchIdx flw < idx
   · simp only [step]
-    rw [if_pos ⟨hn, rfl, hm⟩, if_pos ⟨hr, ht, hlt⟩]
+    rw [if_pos ⟨hn, trivial, hm⟩, if_pos ⟨hr, ht, hlt⟩]
     exact ⟨_, upd1 (s.nodes n).matchIdx flw idx, rfl, fun x hx => by simp [setNode, hx], by simp,
       by simp [upd1], fun x hx => by simp [upd1, hx], by simp [upd1]; omega, rfl, rfl⟩
   · simp only [step]
-    rw [if_pos ⟨hn, rfl, hm⟩, if_neg (fun h => hlt h.2.2)]
+    rw [if_pos ⟨hn, trivial, hm⟩, if_neg (fun h => hlt h.2.2)]
     exact ⟨_, (s.nodes n).matchIdx, rfl, fun _ _ => rfl, rfl, by omega, fun _ _ => rfl, Nat.le_refl _, rfl, rfl⟩
 
 theorem step_advanceCommit {N : Nat} {s : State} {n i : Nat} (h1 : n < N) (h2 : (s.nodes n).role = .leader)
@@ -219,5 +228,137 @@ theorem run_apply {N : Nat} (n : Nat) : ∀ (k : Nat) (s : State), (s.nodes n).a
     · rw [hn]; simp; omega
     · rw [hm]; rfl
     · rw [hg]; rfl
+
+/-! ### snapshots -/
+
+theorem step_recvSnapshot {N : Nat} {s : State} {n t ldr k kt c : Nat} {pfx : List Entry}
+    (hm : Msg.snapshot t ldr n k kt c pfx ∈ s.msgs) (ht : ¬ t < (s.nodes n).term) :
+    ∃ s', step N s (.recvSnapshot n (.snapshot t ldr n k kt c pfx)) = some s' ∧
+      (∀ x, x ≠ n → s'.nodes x = s.nodes x) ∧
+      (s'.nodes n).term = t ∧ (s'.nodes n).role = .follower ∧
+      ((k ≤ (s.nodes n).applied ∨ (k < (s.nodes n).log.length ∧ termAt (s.nodes n).log k = kt)) →
+        (s'.nodes n).log = (s.nodes n).log ∧ (s'.nodes n).applied = (s.nodes n).applied ∧
+        (s'.nodes n).commit = (if (s.nodes n).commit < c then max (s.nodes n).commit (min c k) else (s.nodes n).commit)) ∧
+      (¬ (k ≤ (s.nodes n).applied ∨ (k < (s.nodes n).log.length ∧ termAt (s.nodes n).log k = kt)) →
+        (s'.nodes n).log = pfx ∧ (s'.nodes n).applied = k ∧
+        (s'.nodes n).commit = max (if (s.nodes n).commit < c then max (s.nodes n).commit (min c k) else (s.nodes n).commit) k) ∧
+      Msg.ack t n ldr k ∈ s'.msgs ∧ k ≤ s'.g.acked t n := by
+  simp only [step]
+  rw [if_pos ⟨trivial, hm⟩, if_neg ht]
+  refine ⟨_, rfl, fun x hx => by simp [setNode, hx], ?_, ?_, ?_, ?_, by simp, by simp [upd2]; omega⟩
+  · simp only [setNode_nodes_self]
+    split <;> simp [adoptTerm_term ht]
+  · simp only [setNode_nodes_self]
+    split <;> simp
+  · intro hk
+    simp only [setNode_nodes_self]
+    rw [if_pos (by simpa using hk)]
+    simp
+  · intro hk
+    simp only [setNode_nodes_self]
+    rw [if_neg (by simpa using hk)]
+    simp
+
+/-! ### elections -/
+
+@[simp] theorem becomeLeader_nodes_self (s : State) (n : Nat) (ns : NodeSt) :
+    (becomeLeader s n ns).nodes n =
+      { ns with role := .leader, matchIdx := fun _ => 0, log := ns.log ++ [⟨ns.term, 0⟩] } := by
+  simp [becomeLeader, setNode]
+
+theorem becomeLeader_nodes_ne (s : State) {n x : Nat} (ns : NodeSt) (h : x ≠ n) :
+    (becomeLeader s n ns).nodes x = s.nodes x := by
+  simp [becomeLeader, setNode, h]
+
+@[simp] theorem becomeLeader_msgs (s : State) (n : Nat) (ns : NodeSt) : (becomeLeader s n ns).msgs = s.msgs := rfl
+
+/-- An election timeout of a non-leader voter: new term, own vote, vote requests to `dsts`; a
+single-voter cluster wins at once. -/
+theorem step_timeout {N : Nat} {s : State} {n : Nat} {dsts : List Nat} (h1 : n < N)
+    (h2 : (s.nodes n).role ≠ .leader) (h3 : ∀ d ∈ dsts, d < N ∧ d ≠ n) :
+    ∃ s', step N s (.timeout n dsts) = some s' ∧
+      (∀ x, x ≠ n → s'.nodes x = s.nodes x) ∧
+      (s'.nodes n).term = (s.nodes n).term + 1 ∧
+      (s'.nodes n).commit = (s.nodes n).commit ∧ (s'.nodes n).applied = (s.nodes n).applied ∧
+      (∀ d ∈ dsts, Msg.reqVote ((s.nodes n).term + 1) n d ((s.nodes n).log.length - 1) (lastTerm (s.nodes n).log) ∈ s'.msgs) ∧
+      (∀ x ∈ s.msgs, x ∈ s'.msgs) ∧
+      ((isMajority N 1 = true ∧ (s'.nodes n).role = .leader ∧
+          (s'.nodes n).log = (s.nodes n).log ++ [⟨(s.nodes n).term + 1, 0⟩]) ∨
+       (isMajority N 1 = false ∧ (s'.nodes n).role = .candidate ∧ (s'.nodes n).log = (s.nodes n).log ∧
+          (s'.nodes n).votes = 1)) := by
+  simp only [step]
+  rw [if_pos ⟨h1, h2, h3⟩]
+  have hreq : ∀ d ∈ dsts, Msg.reqVote ((s.nodes n).term + 1) n d ((s.nodes n).log.length - 1) (lastTerm (s.nodes n).log) ∈
+      s.msgs ++ dsts.map (fun d => Msg.reqVote ((s.nodes n).term + 1) n d ((s.nodes n).log.length - 1) (lastTerm (s.nodes n).log)) :=
+    fun d hd => List.mem_append_right _ (List.mem_map.mpr ⟨d, hd, rfl⟩)
+  cases hmaj : isMajority N 1 with
+  | true =>
+    simp only [if_true]
+    refine ⟨_, rfl, fun x hx => ?_, by simp, by simp, by simp, ?_, ?_, Or.inl ⟨trivial, by simp, by simp⟩⟩
+    · rw [becomeLeader_nodes_ne _ _ hx]; simp [setNode, hx]
+    · intro d hd; simpa using hreq d hd
+    · intro x hx; simp; exact Or.inl hx
+  | false =>
+    simp only [Bool.false_eq_true, if_false]
+    refine ⟨_, rfl, fun x hx => by simp [setNode, hx], by simp, by simp, by simp, ?_, ?_, Or.inr ⟨trivial, by simp, by simp, by simp⟩⟩
+    · intro d hd; simpa using hreq d hd
+    · intro x hx; simp; exact Or.inl hx
+
+/-- A voter in an older term grants its vote to an up-to-date candidate. -/
+theorem step_recvReqVote_grant {N : Nat} {s : State} {n t cand li lt : Nat} (hn : n < N) (hc : cand < N)
+    (hne : cand ≠ n) (hm : Msg.reqVote t cand n li lt ∈ s.msgs) (ht : (s.nodes n).term < t)
+    (hup : upToDate lt li (s.nodes n).log = true) :
+    ∃ s', step N s (.recvReqVote n (.reqVote t cand n li lt)) = some s' ∧
+      (∀ x, x ≠ n → s'.nodes x = s.nodes x) ∧
+      (s'.nodes n).term = t ∧ (s'.nodes n).role = .follower ∧ (s'.nodes n).log = (s.nodes n).log ∧
+      (s'.nodes n).commit = (s.nodes n).commit ∧ (s'.nodes n).applied = (s.nodes n).applied ∧
+      s'.msgs = s.msgs.erase (.reqVote t cand n li lt) ++ [Msg.vote t n cand] := by
+  simp only [step]
+  rw [if_pos ⟨hn, trivial, hc, hne, hm⟩]
+  have hb : bumpTerm (s.nodes n) t = { s.nodes n with term := t, votedFor := none, role := .follower } := by
+    unfold bumpTerm; rw [if_pos ht]
+  rw [hb]
+  rw [if_pos ⟨by simp, by simp, by simpa using hup, by simp⟩]
+  exact ⟨_, rfl, fun x hx => by simp [setNode, hx], by simp, by simp, by simp, by simp, by simp, rfl⟩
+
+/-- A vote delivered to its candidate is counted; at a majority the candidate becomes leader and
+appends the no-op of its term; a node that is no longer candidate of that term drops the vote. -/
+theorem step_recvVote {N : Nat} {s : State} {n t voter : Nat} (hn : n < N)
+    (hm : Msg.vote t voter n ∈ s.msgs) :
+    ∃ s', step N s (.recvVote n (.vote t voter n)) = some s' ∧
+      (∀ x, x ≠ n → s'.nodes x = s.nodes x) ∧
+      s'.msgs = s.msgs.erase (.vote t voter n) ∧
+      (s'.nodes n).term = (s.nodes n).term ∧ (s'.nodes n).commit = (s.nodes n).commit ∧
+      (s'.nodes n).applied = (s.nodes n).applied ∧
+      (((s.nodes n).role = .candidate ∧ t = (s.nodes n).term ∧ isMajority N ((s.nodes n).votes + 1) = true ∧
+          (s'.nodes n).role = .leader ∧ (s'.nodes n).log = (s.nodes n).log ++ [⟨(s.nodes n).term, 0⟩]) ∨
+       ((s.nodes n).role = .candidate ∧ t = (s.nodes n).term ∧ isMajority N ((s.nodes n).votes + 1) = false ∧
+          (s'.nodes n).role = .candidate ∧ (s'.nodes n).log = (s.nodes n).log ∧
+          (s'.nodes n).votes = (s.nodes n).votes + 1) ∨
+       (¬ ((s.nodes n).role = .candidate ∧ t = (s.nodes n).term) ∧ s'.nodes n = s.nodes n)) := by
+  simp only [step]
+  rw [if_pos ⟨hn, trivial, hm⟩]
+  by_cases hc : (s.nodes n).role = .candidate ∧ t = (s.nodes n).term
+  · rw [if_pos hc]
+    cases hmaj : isMajority N ((s.nodes n).votes + 1) with
+    | true =>
+      simp only [if_true]
+      refine ⟨_, rfl, fun x hx => ?_, by simp, by simp, by simp, by simp, Or.inl ⟨hc.1, hc.2, trivial, by simp, by simp⟩⟩
+      rw [becomeLeader_nodes_ne _ _ hx]; simp [setNode, hx]
+    | false =>
+      simp only [Bool.false_eq_true, if_false]
+      exact ⟨_, rfl, fun x hx => by simp [setNode, hx], by simp, by simp, by simp, by simp,
+        Or.inr (Or.inl ⟨hc.1, hc.2, trivial, by simp [hc.1], by simp, by simp⟩)⟩
+  · rw [if_neg hc]
+    exact ⟨_, rfl, fun _ _ => rfl, rfl, rfl, rfl, rfl, Or.inr (Or.inr ⟨hc, rfl⟩)⟩
+
+theorem step_clientAppend {N : Nat} {s : State} {n cmd : Nat} (h1 : n < N) (h2 : (s.nodes n).role = .leader) :
+    ∃ s', step N s (.clientAppend n cmd) = some s' ∧
+      (∀ x, x ≠ n → s'.nodes x = s.nodes x) ∧
+      s'.nodes n = { s.nodes n with log := (s.nodes n).log ++ [⟨(s.nodes n).term, cmd⟩] } ∧
+      s'.msgs = s.msgs := by
+  simp only [step]
+  rw [if_pos ⟨h1, h2⟩]
+  exact ⟨_, rfl, fun x hx => by simp [setNode, hx], by simp, rfl⟩
 
 end PSO.Raft
